@@ -203,6 +203,21 @@ Theorem C16_check_sound_stack : forall fs,
 Proof. exact stack_sound. Qed.
 Print Assumptions C16_check_sound_stack.
 
+(* the limit parameter (argument or sys.tracebacklimit): for a positive limit the model keeps the
+   entries the traceback module keeps and prints its text *)
+Theorem C16_check_sound_limit : forall fs e k via_sys,
+  (0 < k)%Z -> fs <> [] -> plain_exc e = true ->
+  let lim_fs := spec_limit k via_sys fs in
+  let T := std_tb P lim_fs e in
+  let cs := model_limit k (map cp_of_live fs) in
+  lim_verdict fs e k via_sys lim_fs
+    ((if is_nil lim_fs then exc_text (t_type T) (t_msg T) else std_text T) ++ NL)
+    (map (fun c => mkCpObs (cp_path c) (cp_lineno c) (cp_func c) (deferred_str P (cp_raw c))) cs)
+    (tbi_formatted P cs ++ ei_exc_only (ei_type (ex_module e) (ex_qualname e)) (ei_msg e) ++ M_nl)
+  = (true, true, false).
+Proof. exact lim_sound. Qed.
+Print Assumptions C16_check_sound_limit.
+
 (* ---- the hypotheses are inhabited by non-trivial states ------------------------------------------------ *)
 Example wf_inhabited :
   wf py_cc good_tb = true /\ markers_ok good_marks = true /\ long_repeat (t_frames good_tb) = false /\
